@@ -335,6 +335,41 @@ func c07Eval(r *fw.Run, p *fw.Program) {
 			}
 		}
 		ru.Check(ok, "variables:paired", p.Rel(withVars.Pos()), "names \"$\"+k and values v of the same range iteration, same order", msg)
+		// every entry of the map is bound: no path through the loop body gets back to the loop head
+		// without passing the append (a skipped entry, e.g. a null-valued --argjson, is an undefined
+		// variable at compile time)
+		if ok {
+			nameI, _ := names[0].(ssa.Instruction)
+			var next *ssa.Next
+			if bo, isBo := names[0].(*ssa.BinOp); isBo {
+				if ex, isEx := bo.Y.(*ssa.Extract); isEx {
+					next, _ = ex.Tuple.(*ssa.Next)
+				}
+			}
+			if nameI == nil || next == nil || len(next.Block().Succs) != 2 {
+				ru.Undecided("variables:all", p.Rel(withVars.Pos()), "range loop over the variables not recognised")
+			} else {
+				head, body, ab := next.Block(), next.Block().Succs[0], nameI.Block()
+				skipped := false
+				seen := map[*ssa.BasicBlock]bool{}
+				var walk func(b *ssa.BasicBlock)
+				walk = func(b *ssa.BasicBlock) {
+					if b == ab || seen[b] {
+						return
+					}
+					seen[b] = true
+					if b == head {
+						skipped = true
+						return
+					}
+					for _, sc := range b.Succs {
+						walk(sc)
+					}
+				}
+				walk(body)
+				ru.Check(!skipped, "variables:all", p.Rel(nameI.Pos()), "every iteration of the variables loop binds its entry", "an iteration of the variables loop can continue without binding its entry: a variable given on the command line (e.g. --argjson x null) is then undefined in the program")
+			}
+		}
 	}
 
 	// (5) iterator wrapper
